@@ -205,22 +205,18 @@ theorem acts_setplugstate (X d a o e l p s i) :
   have h2 : ∀ n, findPlug { d with acts := X } n = findPlug d n := fun _ => rfl
   have h3 : chosenName { d with acts := X } l p (ctxName e.plugs) = chosenName d l p (ctxName e.plugs) := rfl
   simp only [h1, h2, h3]
-  split
-  · rfl
-  · cases chosenName d l p (ctxName e.plugs) with
-    | none => rfl
-    | some pn => dsimp only; cases subOf d s <;> cases findPlug d pn <;> rfl
+  cases chosenName d l p (ctxName e.plugs) with
+  | none => rfl
+  | some pn => dsimp only; cases subOf d s <;> cases findPlug d pn <;> rfl
 theorem acts_setresult (X d a o p s i) :
     stmtSetresult { d with acts := X } a o p s i = withActs X (stmtSetresult d a o p s i) := by
   unfold stmtSetresult withActs
   have h1 : ∀ m, subOf { d with acts := X } m = subOf d m := fun _ => rfl
   have h2 : ∀ n, findPlug { d with acts := X } n = findPlug d n := fun _ => rfl
   simp only [h1, h2]
-  split
-  · rfl
-  · cases subOf d p with
-    | none => rfl
-    | some pn => dsimp only; cases subOf d s <;> cases findPlug d pn <;> rfl
+  cases subOf d p with
+  | none => rfl
+  | some pn => dsimp only; cases subOf d s <;> cases findPlug d pn <;> rfl
 theorem acts_foreach (X d a o e b n) :
     stmtForeach { d with acts := X } a o e b n = withActs X (stmtForeach d a o e b n) := by
   simp only [stmtForeach_eq]; unfold stmtForeach' withActs
